@@ -40,7 +40,8 @@ def dDecl (j : Json) : Except String GAttr := do
 def dGAttr (j : Json) : Except String GAttr := do
   pure { isAttribute := ← getBool j "is_attribute", min := ← dNat (fld j "min"), max := ← dNat (fld j "max"),
          default := ← dOptS (fld j "default"), fixed := ← getBool j "fixed", anyObj := ← getBool j "any_obj",
-         xsiType := (getBool j "xsi_type").toOption.getD false }
+         xsiType := (getBool j "xsi_type").toOption.getD false,
+         tokens := (getBool j "tokens").toOption.getD false }
 
 def jGAttr (a : GAttr) : Json :=
   jObj [("is_attribute", jBool a.isAttribute), ("min", jNat a.min), ("max", jNat a.max),
@@ -53,6 +54,11 @@ def jField : Option Field → Json
       | .none => Json.str "None"
       | .listFactory => Json.str "list"
       | .value s => Json.arr #[jStr s])]
+
+/-- the DTD attribute types that are lists of tokens -/
+def isTokensType : Json → Bool
+  | .str "NMTOKENS" | .str "IDREFS" | .str "ENTITIES" => true
+  | _ => false
 
 def run (op : String) (a : Json) : Option (Except String Json) :=
   match op with
@@ -70,7 +76,7 @@ def run (op : String) (a : Json) : Option (Except String Json) :=
           | .str "fixed" => pure DtdDefault.fixed
           | .str "none" => pure DtdDefault.noneD
           | _ => .error "bad dtd default"
-        pure ({ default := k, value := ← dOptS (fld j "value") } : DtdAttrDecl)
+        pure ({ default := k, value := ← dOptS (fld j "value"), tokens := isTokensType (fld j "type") } : DtdAttrDecl)
       if op == "gen.dtd_attr" then pure <| ok (jList (fun d => jGAttr (dtdAttr d)) decls)
       else pure <| ok (jList (fun d => jField (dtdAttrField d)) decls)
   | "gen.read_attr" | "gen.dtd_read_attr" => some do
@@ -87,7 +93,7 @@ def run (op : String) (a : Json) : Option (Except String Json) :=
             | .str "fixed" => pure DtdDefault.fixed
             | .str "none" => pure DtdDefault.noneD
             | _ => .error "bad dtd default"
-          pure (dtdAttrField { default := k, value := ← dOptS (fld d "value") })
+          pure (dtdAttrField { default := k, value := ← dOptS (fld d "value"), tokens := isTokensType (fld d "type") })
       let givens ← (← asArr (fld a "givens")).mapM dOptS
       pure <| ok (jList (fun x => match readAttr field x with
         | none => Json.str "ParserError"
